@@ -27,6 +27,10 @@ def scorer(kind, gd, salt):
 
     def flat(x):
         return x.reshape((x.shape[0], -1))
+    if kind == "exact":
+        # a perfect heuristic (true distance from the central state = distance to it on inverse-closed graphs): narrow beams succeed AND prune
+        _, table = G.ref_bfs(gd, [gd["central"]])
+        return lambda x: torch.tensor([table.get(tuple(int(v) for v in row), 99) for row in flat(x).tolist()], dtype=torch.int64)
     if kind == "far":
         return lambda x: -(flat(x) != c).sum(dim=1)
     if kind == "const":
@@ -84,7 +88,7 @@ def run(ctx):
     bs.torch = TorchProxy(real_torch, rec)
     cases, metas = [], []
     try:
-        for _ in range(ctx.budget(160, 1500)):
+        for it_ in range(ctx.budget(160, 1500)):
             gd = P.gen_invertible_graph(rng, 300)
             cfgd = G.gen_config(rng, gd)
             graph = G.make_graph(gd, cfgd)
@@ -105,6 +109,16 @@ def run(ctx):
             if not advanced and rng.random() < 0.4 and (ic or rng.random() < 0.3):
                 ball_depth = rng.randint(0, 3)
             sk = rng.choice([None, None, "zero", "far", "const", "table"])
+            if it_ % 4 == 3 and ic and len(layers) >= 4:
+                # guided narrow searches that SUCCEED after real pruning, with the path asked for, with and without a ball (pruned layers are kept in score
+                # order, not hash order; the tail through the ball must use inverse generators)
+                advanced, hist, sk, return_path = False, 0, "exact", True
+                start = list(rng.choice([v for v in verts if dist[v] >= min(3, len(layers) - 1)]))
+                _, dist_from_start = G.ref_bfs(gd, [start])
+                width, steps = rng.choice([2, 3, 5, 8]), 30
+                unpruned = False
+                ball_depth = rng.choice([None, 1, 2])
+                ctx.count("guided_narrow_searches")
             pred = None if sk is None else (Predictor(graph, "zero") if sk == "zero" else Predictor(graph, scorer(sk, gd, rng.randrange(100))))
             kw = dict(start_state=start, beam_mode="advanced" if advanced else "simple", beam_width=width, max_steps=steps, predictor=pred)
             if advanced:
